@@ -53,6 +53,10 @@ type Base struct {
 	// AfterOp, if set, is called after every operation that completed on the
 	// inner store (before a CrashAfter/ErrAfter action takes effect).
 	AfterOp func(op string)
+	// EventHook, if set, decides the Action of an Append from the event itself
+	// (instead of from its ordinal number): for workloads whose append order
+	// is not determined.
+	EventHook func(e *eventbus.Event) Action
 	// Bypass, if set, lets matching appends go straight to the inner store:
 	// no hook, no counters (events the harness itself adds to the traffic).
 	Bypass func(e *eventbus.Event) bool
@@ -169,12 +173,19 @@ func (b *Base) post(a Action, op string) error {
 
 func (b *Base) Append(ctx context.Context, e *eventbus.Event) (eventbus.Offset, error) {
 	if b.Bypass != nil && b.Bypass(e) {
-		return b.Inner.Append(ctx, e)
+		off, err := b.Inner.Append(ctx, e)
+		if err != nil && b.OnInnerError != nil {
+			b.OnInnerError("append-bypass", err)
+		}
+		return off, err
 	}
 	b.mu.Lock()
 	b.Appends++
 	b.mu.Unlock()
 	a := b.next("append", ctx)
+	if b.EventHook != nil {
+		a = b.EventHook(e)
+	}
 	if err := b.pre(a, "append", ctx); err != nil {
 		return "", err
 	}
